@@ -211,7 +211,7 @@ func (m *MonC01) OnPassEnd(w *World, p *Pass) {
 					Msg: fmt.Sprintf("pass %d of %s %s observed %s as adoptable (%s) but issued no apply for it", p.ID, p.Ctrl, p.Key, k, why)})
 				return
 			}
-			if applyReq.Err == nil && applyReq.After != nil {
+			if applyReq.Succeeded() && applyReq.After != nil {
 				cs := Controllers(applyReq.After, strategy)
 				r2, _ := RecordedRevision(applyReq.After)
 				if len(cs) != 1 || !cs[0].Is(owner) || r2 != rev {
